@@ -298,7 +298,8 @@ def skel_obligations(skel, helpers, kinds):
 # expression G-trees: ("num",v) ("ref",name) ("time",) ("dt",) ("start",) (op,a,b) ("neg",a) ("abs",a) ("min"/"max",a,b)
 # ("if",("cmp",op,a,b),x,y) ("step",h,t0) ("lookup",x,tbl) ("delay",name,d,init) ("smooth",name,T,init) ("nmul",v,a)
 def rnum(rng):
-    return rng.choice([0.5, 1.0, 2.0, 3.0, 0.25, 1.5, 4.0, -1.0, 0.125])
+    # includes the falsy 0.0 (a test for presence written as a truthiness test would drop it)
+    return rng.choice([0.5, 1.0, 2.0, 3.0, 0.25, 1.5, 4.0, -1.0, 0.125, 0.0])
 
 
 def gen_expr(rng, depth, refs, feat):
@@ -390,7 +391,7 @@ def gen_vector_family(rng, scalars):
 def gen_model(rng, dts, long_run=False):
     """acyclic model: list of (name, kind, payload) in dependency order for non-stocks"""
     dt = rng.choice(dts)
-    start = rng.choice([0.0, 1.0, 2.0])
+    start = rng.choice([0.0, 1.0, 2.0, 0.0, 1.0, 2.0, -1.0, 0.3])
     n = rng.range(30, 40) if long_run else rng.range(3, 8)
     stop = start + n * dt
     tables = {"tbl": [[0.0, 1.0], [1.0, 3.0], [2.5, 2.0], [4.0, 6.0]]}
@@ -421,6 +422,11 @@ def gen_model(rng, dts, long_run=False):
         src = rng.choice([e[0] for e in els if e[1] in ("converter", "biflow", "flow")] or stocks)
         els.append(("sm", "converter", ("smooth", src, par([2.0, 4.0, 1.0]), par([rnum(rng)]))))
         avail.append("sm")
+    if rng.chance(1, 6):
+        # a second smooth in the same model (the helper elements get their names from a per-model counter)
+        src = rng.choice([e[0] for e in els if e[1] in ("converter", "biflow", "flow")] or stocks)
+        els.append(("sm2", "converter", ("smooth", src, par([2.0, 0.5]), par([rnum(rng)]))))
+        avail.append("sm2")
     if rng.chance(1, 4):
         src = rng.choice([e[0] for e in els if e[1] in ("converter", "biflow", "flow")] or stocks)
         els.append(("tr", "converter", ("trend", src, par([2.0, 4.0, 1.0]), par([1.0, 2.0, 0.5, -1.0, 4.0]))))
@@ -433,7 +439,29 @@ def gen_model(rng, dts, long_run=False):
         init = rng.choice([("num", rnum(rng))] + [("ref", e[0]) for e in els if e[1] == "constant"])
         # every operator form also directly inside a stock equation
         els.append((s, "stock", (init, gen_expr(rng, rng.range(1, 3), avail, feat))))
-    return {"start": start, "dt": dt, "stop": stop, "n": n, "tables": tables, "els": els, "vsize": vsize}
+    variant = {"ints": rng.chance(1, 3), "names": rng.choice(["plain", "plain", "spaces"]),
+               "assign": rng.choice(["dependency", "reversed", "shuffled"]), "assign_seed": rng.below(1000),
+               "eval": rng.choice(["by_element", "random", "descending"]), "eval_seed": rng.below(1000), "share": rng.chance(1, 3)}
+    if variant["share"]:
+        # the SAME Python operator object used in two equations (an expression kept in a variable and reused)
+        cands = [e for e in els if e[1] in ("converter", "flow", "biflow") and e[2][0] not in ("smooth", "trend")]
+        if cands:
+            src = rng.choice(cands)
+            els.insert(len(els) - len(stocks), ("al", "converter", src[2]))
+            els.insert(len(els) - len(stocks), ("al2", "flow", ("add", src[2], ("num", 1.0))))
+    return {"start": start, "dt": dt, "stop": stop, "n": n, "tables": tables, "els": els, "vsize": vsize, "variant": variant}
+
+
+def real_name(spec, n):
+    """name of element `n` in the real model: plain, or with spaces and punctuation (SD models name elements in prose)"""
+    ren = spec.get("variant", {}).get("rename")
+    if ren:
+        base, sep, idx = n.partition("[")
+        return ren.get(base, base) + sep + idx
+    if spec.get("variant", {}).get("names") != "spaces":
+        return n
+    base, sep, idx = n.partition("[")
+    return f"The {base} (x-1)" + sep + idx
 
 
 def directed_models(dts):
@@ -461,6 +489,19 @@ def directed_models(dts):
                        ("c0", "converter", ("add", ("time",), ("num", 1.0))),
                        ("f0", "flow", eq), ("s0", "stock", (("num", 1.0), eq))]
                 out.append({"start": start, "dt": dt, "stop": start + n * dt, "n": n, "tables": tables, "els": els, "vsize": 0})
+    return out
+
+
+def name_models():
+    """element names that need quoting in the generated text: an apostrophe, double quotes, and a backslash sequence that —
+    reinterpreted — is the name of ANOTHER element of the model"""
+    tables = {"tbl": [[0.0, 1.0], [1.0, 3.0], [2.5, 2.0], [4.0, 6.0]]}
+    els = [("ka", "constant", 5.0), ("kx", "constant", 2.0), ("c0", "converter", ("add", ("mul", ("ref", "kx"), ("num", 3.0)), ("time",))),
+           ("f0", "flow", ("sub", ("ref", "c0"), ("ref", "ka"))), ("s0", "stock", (("ref", "kx"), ("sub", ("ref", "f0"), ("ref", "kx"))))]
+    out = []
+    for ren in ({"ka": "kA", "kx": "k\\x41"}, {"kx": "customer's rate", "s0": "it's level", "f0": 'the "net" flow'},
+                {"ka": "tab\tname", "kx": "new\nline", "c0": "back\\slash"}):
+        out.append({"start": 0.0, "dt": 0.5, "stop": 2.0, "n": 4, "tables": tables, "els": els, "vsize": 0, "variant": {"rename": ren}})
     return out
 
 
@@ -493,12 +534,16 @@ def show_g(g):
 def build_real(spec):
     from BPTK_Py import Model
     import BPTK_Py.sddsl.functions as sd
-    m = Model(spec["start"], spec["stop"], spec["dt"], name="c01gen")
+    var = spec.get("variant", {})
+    def num(x):
+        # integral numbers as Python ints in the `ints` variant (constants, initial values, literals, run specs)
+        return int(x) if var.get("ints") and isinstance(x, float) and x == int(x) and abs(x) < 1e6 else x
+    m = Model(num(spec["start"]), num(spec["stop"]), num(spec["dt"]), name="c01gen")
     m.points.update({k: [list(p) for p in v] for k, v in spec["tables"].items()})
     objs = {}
     size = spec.get("vsize", 0)
     for name, kind, payload in spec["els"]:
-        objs[name] = getattr(m, kind[1:] if kind.startswith("v") else kind)(name)
+        objs[name] = getattr(m, kind[1:] if kind.startswith("v") else kind)(real_name(spec, name))
         if kind == "vconstant":
             objs[name].setup_vector(size, list(payload))
         elif kind == "vstock":
@@ -508,9 +553,17 @@ def build_real(spec):
     def arg(x):
         # parameter of a built-in: a number, nothing, or a Constant element
         return objs[x[1]] if isinstance(x, (tuple, list)) else x
+    shared = {}
     def ex(g):
+        if var.get("share") and len(g) > 1 and g[0] not in ("num", "ref", "vref"):
+            key = json.dumps(g)
+            if key not in shared:
+                shared[key] = ex0(g)
+            return shared[key]
+        return ex0(g)
+    def ex0(g):
         k = g[0]
-        if k == "num": return g[1]
+        if k == "num": return num(g[1])
         if k in ("ref", "vref"): return objs[g[1]]
         if k in ("sinwave", "coswave"):
             a = ex(g[1])
@@ -560,7 +613,12 @@ def build_real(spec):
         if k == "delay": return sd.delay(m, objs[g[1]], arg(g[2]), arg(g[3]))
         if k == "smooth": return sd.smooth(m, objs[g[1]], arg(g[2]), arg(g[3]))
         raise ValueError(k)
-    for name, kind, payload in spec["els"]:
+    order = list(spec["els"])
+    if var.get("assign") == "reversed":
+        order.reverse()
+    elif var.get("assign") == "shuffled":
+        Rng(var.get("assign_seed", 0)).shuffle(order)
+    for name, kind, payload in order:
         if kind == "vconstant":
             continue
         if kind == "vstock":
@@ -568,9 +626,10 @@ def build_real(spec):
         elif kind.startswith("v"):
             objs[name].equation = ex(payload)
         elif kind == "constant":
-            objs[name].equation = payload
+            objs[name].equation = num(payload)
         elif kind == "stock":
             init, eq = payload
+            # (Stock.initial_value refuses an int with ElementError — a rejection, so initial values stay floats)
             objs[name].initial_value = init[1] if init[0] == "num" else objs[init[1]]
             e = ex(eq)
             objs[name].equation = e
@@ -708,11 +767,49 @@ def shrink_model(spec, fails):
     return spec
 
 
+def channel_values(spec):
+    """the other two places the property may be observed at: `bptk.run_scenarios(..., return_format="df")` and
+    `Element.plot(return_df=True)` — fresh model each; returns {channel: {name: [values]}} (scalar elements only)"""
+    from BPTK_Py import bptk
+    names = [n for n, k, _ in spec["els"] if not k.startswith("v")]
+    out = {}
+    m, objs = build_real(spec)
+    out["plot"] = {n: [float(v) for v in objs[n].plot(return_df=True)[real_name(spec, n)]] for n in names}
+    m2, _ = build_real(spec)
+    bp = bptk()
+    try:
+        bp.register_scenario_manager({"smC01": {"model": m2}})
+        bp.register_scenarios(scenarios={"sc": {}}, scenario_manager="smC01")
+        rn = [real_name(spec, n) for n in names]
+        df = bp.run_scenarios(scenarios=["sc"], scenario_managers=["smC01"], equations=rn, return_format="df", series_names={})
+        col = lambda n: n if n in df.columns else "smC01_sc_%s" % n
+        out["run_scenarios"] = {n: [float(v) for v in df[col(real_name(spec, n))]] for n in names}
+    finally:
+        bp.destroy()
+    return out
+
+
 def simulate_real(spec):
     from BPTK_Py.util import timerange
     m, objs = build_real(spec)
     times = timerange(spec["start"], spec["stop"], spec["dt"], exclusive=False)
-    real = {n: [float(m.evaluate_equation(n, t)) for t in times] for n, _, _ in expand_els(spec)}
+    names = [n for n, _, _ in expand_els(spec)]
+    var = spec.get("variant", {})
+    # order in which (element, time) pairs are asked for: the memo is derived state, the answer must not depend on it
+    pairs = [(n, k) for n in names for k in range(len(times))]
+    if var.get("eval") == "random":
+        Rng(var.get("eval_seed", 0)).shuffle(pairs)
+    elif var.get("eval") == "descending":
+        pairs.reverse()
+    real = {n: [None] * len(times) for n in names}
+    for n, k in pairs:
+        real[n][k] = float(m.evaluate_equation(real_name(spec, n), times[k]))
+    # second use: every value again, now answered from the memo
+    for n, k in pairs[::-1]:
+        v2 = float(m.evaluate_equation(real_name(spec, n), times[k]))
+        if v2 != real[n][k] and not (math.isnan(v2) and math.isnan(real[n][k])):
+            real[n][k] = float("nan") if True else v2          # a value that changes on the second request can never equal the reference
+            spec.setdefault("_second_use_differs", []).append((n, k))
     strings = {n: e.function_string for n, e in list(m.stocks.items()) + list(m.flows.items()) + list(m.biflows.items()) + list(m.converters.items()) + list(m.constants.items())}
     # an arrayed element's own function string is never evaluated (its components are): leave the parents out
     strings = {n: fs for n, fs in strings.items() if f"{n}[0]" not in strings}
@@ -819,10 +916,11 @@ def run(chk):
     if not chk.quick:
         plan += [(d, True) for d in dts for _ in range(40)]
     solveK = 3
-    stats.update({"long_runs": {}, "dsl_rejected": 0, "solveF_checked": 0, "arrayed_models": 0, "steps_max": 0})
+    chan_fail = None
+    stats.update({"channel_models": 0, "variants": {}, "long_runs": {}, "dsl_rejected": 0, "solveF_checked": 0, "arrayed_models": 0, "steps_max": 0})
     directed = directed_models(dts)
     stats["directed_models"] = len(directed)
-    plan = [("directed", d) for d in directed] + plan
+    plan = [("directed", d) for d in directed + name_models()] + plan
     for force_dt, long_run in plan:
         spec = long_run if force_dt == "directed" else gen_model(rng, [force_dt] if force_dt else dts, long_run)
         if force_dt == "directed":
@@ -833,9 +931,9 @@ def run(chk):
         except (ZeroDivisionError, OverflowError, RecursionError):
             stats["rejected"] += 1
             continue
-        except (AttributeError, TypeError, KeyError, IndexError) as ex:
-            # the DSL refused to build an arrayed equation (exception, no value): outside the property
-            if spec.get("vsize"):
+        except (AttributeError, TypeError, KeyError, IndexError, SyntaxError) as ex:
+            # the DSL refused to build an arrayed equation / a model with such element names (exception, no value): outside the property
+            if spec.get("vsize") or spec.get("variant", {}).get("rename"):
                 stats["dsl_rejected"] += 1
                 stats.setdefault("dsl_rejected_sample", f"{type(ex).__name__}: {str(ex)[:80]}")
                 continue
@@ -850,6 +948,11 @@ def run(chk):
             if kd != "vconstant":
                 count_forms(p if kd not in ("stock", "vstock") else p[1])
         stats["dt"][str(spec["dt"])] = stats["dt"].get(str(spec["dt"]), 0) + 1
+        for vk, vv in spec.get("variant", {}).items():
+            if not vk.endswith("_seed"):
+                stats["variants"][f"{vk}={vv}"] = stats["variants"].get(f"{vk}={vv}", 0) + 1
+        stats.setdefault("start", {}); stats["start"][str(spec["start"])] = stats["start"].get(str(spec["start"]), 0) + 1
+        stats["zero_valued_constants_or_initials"] = stats.get("zero_valued_constants_or_initials", 0) + sum(1 for _, kd_, p_ in spec["els"] if (kd_ == "constant" and p_ == 0.0) or (kd_ == "stock" and p_[0] == ("num", 0.0)))
         if long_run:
             stats["long_runs"][str(spec["dt"])] = stats["long_runs"].get(str(spec["dt"]), 0) + 1
         stats["steps_max"] = max(stats["steps_max"], spec["n"])
@@ -857,6 +960,23 @@ def run(chk):
         d = first_diff(spec, real, ref)
         if d is not None and ref_fail is None:
             ref_fail = (spec, d)
+        if spec.get("_second_use_differs") and ref_fail is None:
+            n_, k_ = spec["_second_use_differs"][0]
+            ref_fail = (spec, (n_, k_, float("nan"), float(ref[n_][k_])))
+        # the other observation points named by the property, on a sample of the models
+        if stats["channel_models"] < (4 if chk.quick else 60) and force_dt != "directed":
+            stats["channel_models"] += 1
+            try:
+                ch = channel_values(spec)
+            except Exception as ex:
+                ch = {}
+                stats.setdefault("channel_errors", []).append(f"{type(ex).__name__}: {str(ex)[:100]}")
+            for cname, vals_ in ch.items():
+                dch = first_diff(spec, {n: vals_.get(n, real[n]) for n in real}, ref)
+                if len(next(iter(vals_.values()))) != len(times):
+                    dch = ("<grid>", len(next(iter(vals_.values()))) - 1, float("nan"), float(len(times) - 1))
+                if dch is not None and chan_fail is None:
+                    chan_fail = (spec, cname, dch)
         # driver request
         lines_ = ["reset"]
         bodies = {n: body_words(fs) for n, fs in strings.items()}
@@ -871,7 +991,7 @@ def run(chk):
         for tn, pts in spec["tables"].items():
             lines_.append(f"points {tn} " + ",".join(f"{fbits(x)}:{fbits(y)}" for x, y in pts))
         for n, w in bodies.items():
-            lines_.append(f"el {n} " + " ".join(w))
+            lines_.append(f"el {n.encode('latin-1', 'replace').hex()} " + " ".join(w))
         lines_.append("runall")
         # the cache-free recursive evaluator (Core `solveF`) on the first indices; its cost is exponential in the index
         lines_.append(f"solve {min(solveK, spec['n'])}")
@@ -885,7 +1005,7 @@ def run(chk):
     corr = None
     def parse_reply(reply):
         # element names may contain `=`-free brackets only; split on the first `=`
-        return dict(x.split("=", 1) for x in reply.split(";")) if "=" in reply else {}
+        return {bytes.fromhex(k).decode("latin-1"): v for k, v in (x.split("=", 1) for x in reply.split(";"))} if "=" in reply else {}
     for spec, real, off, ln in metas:
         reply, reply_solve, reply_acyc = out[off + ln - 3], out[off + ln - 2], out[off + ln - 1]
         bad_line = next((i for i in range(off, off + ln - 3) if out[i] != "ok"), None)
@@ -919,13 +1039,13 @@ def run(chk):
         ok_model = True
         for n, _, _ in expand_els(spec):
             # the sign of zero is not compared: Python's max(0, x) returns the int 0, and int arithmetic has no -0
-            okr, want = same(got.get(n), real[n])
-            oks, want_s = same(got_solve.get(n), real[n][:K + 1])
+            okr, want = same(got.get(real_name(spec, n)), real[n])
+            oks, want_s = same(got_solve.get(real_name(spec, n)), real[n][:K + 1])
             if not (okr and oks):
                 ok_model = False
                 if not opaque:
-                    corr = corr or (spec, f"element {n}: model {got.get(n)} impl {want}" if not okr else
-                                    f"element {n}: cache-free recursive evaluator solveF {got_solve.get(n)} impl {want_s}")
+                    corr = corr or (spec, f"element {n}: model {got.get(real_name(spec, n))} impl {want}" if not okr else
+                                    f"element {n}: cache-free recursive evaluator solveF {got_solve.get(real_name(spec, n))} impl {want_s}")
                 break
             stats["solveF_checked"] += K + 1
         if opaque:
@@ -961,6 +1081,10 @@ def run(chk):
                         f"element {d[0]} at grid index {d[1]}: simulation {d[2]!r}, explicit Euler {d[3]!r} (dt={small['dt']}, start={small['start']})",
                         {"spec": json.loads(json.dumps(small)), "element": d[0], "index": d[1], "observed": d[2], "expected": d[3],
                          "function_strings": strings})
+    if chan_fail is not None and ref_fail is None:
+        spec, cname, d = chan_fail
+        chk.add_finding("euler-channel:" + cname, f"{cname}: element {d[0]} at grid index {d[1]} reports {d[2]!r}, explicit Euler {d[3]!r} (dt={spec['dt']}, start={spec['start']})",
+                        {"spec": json.loads(json.dumps({k: v for k, v in spec.items() if not k.startswith('_')})), "channel": cname, "element": d[0], "index": d[1], "observed": d[2], "expected": d[3]})
     if not ok and ref_fail is None:
         chk.add_finding("obligation", f"proof obligations of C01 no longer check: {why}; unthreaded operands: {unthreaded}",
                         {"theorem": "Bptk.C01.Gen.* (tableOK / shiftOK / skeleton shapes)", "detail": why, "unthreaded": unthreaded}, found_input=False)
